@@ -272,7 +272,7 @@ Section PathStr.
           | [] => (cond ++ lit "?" ++ ts ++ lit ":" ++ fs, true)
           | _ =>
               let ext := lit ".concat(" ++ lvalue_br model path ++ lit ")" in
-              (cond ++ lit "?" ++ ts ++ (if tok then ext else []) ++ lit ":" ++ fs ++ (if fok then ext else []), true)
+              (cond ++ lit "?(" ++ ts ++ lit ")" ++ (if tok then ext else []) ++ lit ":(" ++ fs ++ lit ")" ++ (if fok then ext else []), true)
           end
       | _ => (lvalue_br model path, true)
       end
